@@ -20,6 +20,8 @@ Verdict(i) ==
   \cup B("GatewayExactLinksPresent", GatewayExactLinksPresent, pre, post, first)
   \cup B("WildcardRowsLive", WildcardRowsLive, pre, post, first)
   \cup B("TopologyRefsLive", TopologyRefsLive, pre, post, first)
+  \cup B("TopologyRefsComplete", TopologyRefsComplete, pre, post, first)
+  \cup B("TopologyRefsJustified", TopologyRefsJustified, pre, post, first)
   \cup B("UsageAgrees", UsageAgrees, pre, post, first)
   \cup B("VipInjective", VipInjective, pre, post, first)
   \cup B("VipPoolDisjoint", VipPoolDisjoint, pre, post, first)
